@@ -90,5 +90,36 @@ def ambient_snapshot():
     }
 
 
+# The package's constant tables (pinned list: a *new* module global, e.g. a correct memo cache, is
+# not a constant table and is judged by behaviour alone).
+CONSTANT_TABLES = {
+    "cvss.constants2": ["METRICS_ABBREVIATIONS", "METRICS_ABBREVIATIONS_JSON", "METRICS_MANDATORY",
+                        "TEMPORAL_METRICS", "ENVIRONMENTAL_METRICS", "METRICS_VALUES", "METRICS_VALUE_NAMES"],
+    "cvss.constants3": ["METRICS_ABBREVIATIONS", "METRICS_ABBREVIATIONS_JSON", "METRICS_MANDATORY",
+                        "TEMPORAL_METRICS", "ENVIRONMENTAL_METRICS", "METRICS_VALUES", "METRICS_VALUE_NAMES"],
+    "cvss.constants4": ["EPSILON", "METRICS", "METRICS_MANDATORY", "METRICS_ABBREVIATIONS",
+                        "METRICS_ABBREVIATIONS_JSON", "METRICS_VALUE_NAMES", "MAX_COMPOSED", "MAX_SEVERITY",
+                        "CVSS_LOOKUP_GLOBAL"],
+    "cvss.cvss_calculator": ["PAD", "DEFAULT_VERSION"],
+    "cvss": ["__version__"],
+}
+
+
+def constants_snapshot():
+    import importlib
+    snap = []
+    for modname in sorted(CONSTANT_TABLES):
+        mod = importlib.import_module(modname)
+        for name in CONSTANT_TABLES[modname]:
+            snap.append([modname, name, canon(getattr(mod, name, "<missing>"))])
+        # the names the scoring modules imported from the constants modules must still be the same objects
+    import cvss.cvss2, cvss.cvss3, cvss.cvss4, cvss.interactive
+    for mod, src in ((cvss.cvss2, "cvss.constants2"), (cvss.cvss3, "cvss.constants3"), (cvss.cvss4, "cvss.constants4")):
+        for name in CONSTANT_TABLES[src]:
+            if hasattr(mod, name):
+                snap.append([mod.__name__, name, canon(getattr(mod, name))])
+    return snap
+
+
 def object_snapshot(o):
     return canon(vars(o))
